@@ -333,11 +333,111 @@ def replay_table(r, path, wd):
     return 0
 
 
+# ------------------------------------------------------------------ part 2: run time
+VK_OUT = ["x", "y", "z"]
+
+
+def seq_instance(name, defs, mode, T=3, always=False, leader=True, keys=("a", "b"), modcancel=True, qmax=2, bound=None):
+    """defs: list of item lists (definition i -> virtual key v<i+1> -> output key VK_OUT[i])."""
+    ks = (["l"] if leader else []) + list(keys)
+    layer = {k: {"t": "key", "k": k} for k in keys}
+    if leader:
+        layer["l"] = {"t": "raw", "text": "sldr"}
+    dc = {"sequence-timeout": T, "sequence-input-mode": mode}
+    if always:
+        dc["sequence-always-on"] = "yes"
+    if not modcancel:
+        dc["sequence-backtrack-modcancel"] = "no"
+    extra = ["(defvirtualkeys " + " ".join("v%d %s" % (i + 1, VK_OUT[i]) for i in range(len(defs))) + ")",
+             "(defseq " + " ".join("v%d %s" % (i + 1, def_text(d)) for i, d in enumerate(defs)) + ")"]
+    desc = {"keys": ks, "layers": [layer], "defcfg": dc, "extra": extra}
+    kbd = cfgdesc.render_kbd(desc)
+    params = {"ldr": C("l") if leader else 0, "T": T, "mode": mode, "always": bool(always),
+              "defs": [{"items": d, "out": C(VK_OUT[i])} for i, d in enumerate(defs)],
+              "keys": [C(k) for k in keys]}
+    maxlen = max(sum(1 if it["t"] == "k" else len(it["ks"]) + len(it.get("mods", [])) for it in d) for d in defs)
+    b = bound if bound is not None else maxlen + 1
+    inst = {"name": "c12_" + name, "kbd": kbd, "keys": [C(k) for k in ks], "qmax": qmax,
+            "monitor": {"module": "P_C12", "params": params},
+            "constraint": "SeqBound", "extra_defs": "SeqBound == Len(K.sq.raw) <= %d" % b}
+    return inst, params, kbd
+
+
+A, B, Cc = "a", "b", "c"
+
+
+def family(tier):
+    ab = [K("a"), K("b")]
+    oab = [O(["a", "b"])]
+    fam = [
+        ("hs_ab_oab", [ab, oab], "hidden-suppressed", {}),
+        ("hd_ab_ba", [ab, [K("b"), K("a")]], "hidden-delay-type", {}),
+        ("vb_ab_oab", [ab, oab], "visible-backspaced", {}),
+        ("hd_on_ab_bba", [ab, [K("b"), K("b"), K("a")]], "hidden-delay-type", {"always": True, "leader": False}),
+        ("vb_sa", [[M(["lsft"], ["a"])], [K("a"), K("lsft")]], "visible-backspaced", {"keys": ("lsft", "a")}),
+    ]
+    if tier != "quick":
+        fam += [
+            ("hs_oab_c", [[O(["a", "b"]), K("c")], [K("c"), K("a")]], "hidden-suppressed", {"keys": ("a", "b", "c")}),
+            ("vb_on_ab", [ab, [K("b"), K("b")]], "visible-backspaced", {"always": True, "leader": False}),
+            ("hs_on_ab", [ab, [K("b"), K("b")]], "hidden-suppressed", {"always": True, "leader": False}),
+            ("hd_sab", [[M(["lsft"], ["a", "b"])], [K("lsft"), K("b")]], "hidden-delay-type",
+             {"keys": ("lsft", "a", "b"), "modcancel": False}),
+            ("hs_T1", [ab], "hidden-suppressed", {"T": 1}),
+            ("hd_T2", [ab, oab], "hidden-delay-type", {"T": 2}),
+            ("vb_abc", [[K("a"), K("b"), K("c")], [K("b"), K("c")]], "visible-backspaced", {"keys": ("a", "b", "c")}),
+        ]
+    out = []
+    for name, defs, mode, kw in fam:
+        out.append((name,) + seq_instance(name, defs, mode, **kw))
+    return out
+
+
+def run_time(res, tier, rng, wd):
+    jobs_random, witness_jobs = [], []
+    for name, inst, params, kbd in family(tier):
+        r = mc.check_instance(inst, wd, workers=8, timeout=1500)
+        res.add_instance(r)
+        log("[c12] instance %s: %d states, %d edges replayed, drift %d, monitor errors %d, panics %d, tlc %.0fs" %
+            (name, r["states"], r.get("replayed", 0), r.get("drift", 0), r["n_monerr"], r["n_panic"], r["tlc_wall_s"]))
+        if len(res.samples) < 4:
+            res.samples.append({"instance": name, "kbd": kbd, "states": r["states"], "edges": r.get("edges")})
+        ws = flow.witness_scripts(r["monerr_file"], 40) + flow.witness_scripts(r["panic_file"], 10)
+        scripts = [flow.hist_to_script(w["h"], 12) for w in ws] + \
+                  [flow.hist_to_script(d["h"], 12) for d in r.get("drift_samples", [])]
+        if scripts:
+            witness_jobs.append({"cfg": kbd, "params": params, "tag": "w:" + name, "scripts": scripts})
+        T = params["T"]
+        n = 40 if tier == "quick" else 300
+        keys = inst["keys"]
+        scripts = [rand_history(rng, keys, rng.randint(4, 30 if tier == "quick" else 120),
+                                [0, 1, 1, 1, 2, max(T - 1, 0), T, T + 1, 2 * T + 3], tail=T + 12) for _ in range(n)]
+        jobs_random.append({"cfg": kbd, "params": params, "tag": "r:" + name, "scripts": scripts})
+    for label, jobs in (("witness", witness_jobs), ("random", jobs_random)):
+        if not jobs:
+            continue
+        jobs = shard_local_index(jobs)
+        errs, trace = record_and_validate(res, "P_C12", jobs, wd, "c12_" + label)
+        for e in sorted(errs, key=lambda e: len(script_of(jobs, e["job"], 0)[1]))[:20]:
+            j, s = script_of(jobs, e["job"], 0)
+            flow.classify(res, PID, e["err"], e["err"] + " cfg=" + j["cfg"],
+                          {"property": PID, "cfg": j["cfg"], "params": j["params"], "script": s, "err": e["err"],
+                           "monitor": "P_C12"},
+                          "%s_%d" % (label, len(res.violations)))
+        if label == "random":
+            res.samples.append({"random_history": jobs[0]["scripts"][0][:30], "cfg": jobs[0]["cfg"]})
+
+
 def run(tier, seed):
     res = flow.Result(PID, tier, seed)
     rng = random.Random(seed)
     wd = workdir("c12")
     build_harness()
-    stats, levels = part1(res, tier, rng, wd)
-    log("[c12] part 1: %s" % json.dumps(stats))
+    only = os.environ.get("C12_ONLY", "")
+    stats, levels = ({}, [])
+    if only != "2":
+        stats, levels = part1(res, tier, rng, wd)
+        log("[c12] part 1: %s" % json.dumps(stats))
+    if only != "1":
+        run_time(res, tier, rng, wd)
     return flow.finish(res, "model_checking", "wip", assumptions=[], extra_cov={"part1": stats, "part1_levels": levels})
